@@ -24,50 +24,14 @@ func acksDriver(c *core.Ctx) (string, error) {
 	}, "udpacksdrv")
 }
 
-type acksCfg struct {
-	Name   string
-	Points []int
-	Combs  []int
-	Bound  int
-	Off    uint32 // added to every number by the harness (model numbers must be >= 1 then)
-}
-
-func pickInts(c *core.Ctx, q, t []int) []int {
-	if c.Thorough() {
-		return t
-	}
-	return q
-}
-
-func rangeInts(a, b int) []int {
-	var r []int
-	for i := a; i <= b; i++ {
-		r = append(r, i)
-	}
-	return r
-}
-
 func runC37(c *core.Ctx) error {
 	drv, err := acksDriver(c)
 	if err != nil {
 		return err
 	}
-	nd := c.Pick(8, 10)
-	no := c.Pick(6, 8)
-	cfgs := []acksCfg{
-		{Name: "dense", Points: rangeInts(0, nd), Combs: []int{0}},
-		// 2^32-2 is the largest number: to+1 never wraps
-		{Name: "dense-near-2^32", Points: rangeInts(1, no), Combs: []int{0}, Off: ^uint32(0) - 1 - uint32(no)},
-		// > 50 ranges: BuildNegativeAck's cut-off and BuildAck's cut-off at a range boundary
-		{Name: "comb", Points: pickInts(c, append(rangeInts(0, 3), rangeInts(97, 105)...), append(rangeInts(0, 3), rangeInts(95, 107)...)), Combs: pickInts(c, []int{50, 51}, []int{48, 49, 50, 51, 52}), Bound: 2},
-		// BuildAck's 50-number cut-off in the middle of a range
-		{Name: "wide", Points: []int{0, 1, 2, 10, 40, 59, 60, 61, 62, 63, 64, 70, 120}, Combs: pickInts(c, []int{1}, []int{0, 1}), Bound: c.Pick(2, 3)},
-	}
 	classes := map[string]int{}
-	for _, cfg := range cfgs {
-		if err := replayAcks(c, drv, cfg, classes); err != nil {
-			return err
-		}
+	if err := replayAcks(c, drv, classes); err != nil {
+		return err
 	}
 	c.Set("edge_classes", classes)
 	for _, k := range []string{"prefix-extend", "prefix-absorbs-ranges", "first-range", "insert-range", "widen-range", "unlink-and-merge", "no-change",
@@ -79,13 +43,14 @@ func runC37(c *core.Ctx) error {
 	if err := traceC37(c, drv); err != nil {
 		return err
 	}
-	c.Set("rule", "every transition of TLC's state graph of MC_UdpAcks (dense domain: every subset; comb/wide domains: every <= 2-3 AddAckRange calls around the MaxAckSet cut-offs; dense domain shifted to just below 2^32) is replayed on a fresh real AcksToSend and ackPrefix, the range list, HaveHoles, BuildAck and BuildNegativeAck are compared with the target node; random histories recorded from the real object are validated by TraceUdpAcks")
+	c.Set("rule", "every transition of TLC's state graph of MC_UdpAcks (dense mode: every subset of 0..8/0..10; comb and wide modes: every <= 2-3 AddAckRange calls around the MaxAckSet cut-offs; the part of the dense graph that avoids 0 once more shifted to just below 2^32) is replayed on a fresh real AcksToSend and ackPrefix, the range list, HaveHoles, checkInvariantsCommon, BuildAck and BuildNegativeAck are compared with the target node; random histories recorded from the real object are validated by TraceUdpAcks")
 	c.Assume("ranges are given with from <= to and to+1 < 2^32 (wrapping-free), as the transport produces them")
 	c.Assume("headers are compared as built into a fresh EncHeader / ResendRequest; for a reused EncHeader only soundness (acknowledged numbers are recorded) is required, in the trace check")
 	return nil
 }
 
 type ackNode struct {
+	Mode   string
 	Prefix int
 	Ranges [][2]int
 	Key    string
@@ -94,11 +59,14 @@ type ackNode struct {
 
 func ackKey(prefix any, ranges any) string { return compact(prefix) + "|" + compact(ranges) }
 
-func replayAcks(c *core.Ctx, drv string, cfg acksCfg, classes map[string]int) error {
+func replayAcks(c *core.Ctx, drv string, classes map[string]int) error {
 	emits := map[string]map[string]any{}
+	modes := "ModesQuick"
+	if c.Thorough() {
+		modes = "ModesThorough"
+	}
 	res, err := c.MustTLC(core.TLCOpts{Module: "MC_UdpAcks", Cfg: "MC_UdpAcks.cfg", Workers: 4, DumpDot: true, Coverage: c.Thorough(),
-		Timeout: 12 * time.Minute,
-		Consts:  map[string]string{"POINTS": setOf(cfg.Points), "COMBS": setOf(cfg.Combs), "BOUND": strconv.Itoa(cfg.Bound)},
+		Timeout: 13 * time.Minute, Consts: map[string]string{"MODES": modes},
 		OnEmit: func(p json.RawMessage) {
 			var m map[string]any
 			if json.Unmarshal(p, &m) == nil {
@@ -106,7 +74,7 @@ func replayAcks(c *core.Ctx, drv string, cfg acksCfg, classes map[string]int) er
 			}
 		}})
 	if err != nil {
-		return fmt.Errorf("%s: %v", cfg.Name, err)
+		return err
 	}
 	g, err := core.ParseDot(res.Dot)
 	if err != nil {
@@ -114,20 +82,22 @@ func replayAcks(c *core.Ctx, drv string, cfg acksCfg, classes map[string]int) er
 	}
 	_ = os.Remove(res.Dot)
 	if len(g.Labels) != res.Distinct {
-		return fmt.Errorf("MC_UdpAcks %s: %d dot nodes, %d distinct states", cfg.Name, len(g.Labels), res.Distinct)
+		return fmt.Errorf("MC_UdpAcks: %d dot nodes, %d distinct states", len(g.Labels), res.Distinct)
 	}
 	nodes := make([]ackNode, len(g.Labels))
+	byMode := map[string]int{}
 	for i, l := range g.Labels {
 		pv, ok1 := labelVar(l, "prefix")
 		rv, ok2 := labelVar(l, "ranges")
-		if !ok1 || !ok2 {
-			return fmt.Errorf("node label without prefix/ranges: %q", l)
+		mv, ok3 := labelVar(l, "mode")
+		if !ok1 || !ok2 || !ok3 {
+			return fmt.Errorf("node label without prefix/ranges/mode: %q", l)
 		}
 		rj, err := tupleJSON(rv)
 		if err != nil {
 			return err
 		}
-		n := ackNode{}
+		n := ackNode{Mode: strings.Trim(mv, `"`)}
 		if n.Prefix, err = strconv.Atoi(pv); err != nil {
 			return fmt.Errorf("prefix %q: %v", pv, err)
 		}
@@ -139,90 +109,28 @@ func replayAcks(c *core.Ctx, drv string, cfg acksCfg, classes map[string]int) er
 			return fmt.Errorf("no Emit record for state %s", n.Key)
 		}
 		nodes[i] = n
+		byMode[n.Mode]++
 	}
 	c.Add("states", res.Distinct)
 	c.Add("transitions", len(g.Edges))
-	c.Logf("TLC MC_UdpAcks %s: %d states, %d transitions, depth %d (%v)", cfg.Name, res.Distinct, len(g.Edges), res.Depth, res.Wall)
+	c.Set("states_by_mode", byMode)
+	c.Logf("TLC MC_UdpAcks %s: %d states %v, %d transitions, depth %d (%v)", modes, res.Distinct, byMode, len(g.Edges), res.Depth, res.Wall)
 	if c.Thorough() {
-		c.Set("tlc_action_coverage_acks_"+cfg.Name, res.ActionCover)
+		c.Set("tlc_action_coverage_acks", res.ActionCover)
+	}
+	for _, m := range []string{"dense", "comb", "wide"} {
+		if byMode[m] == 0 {
+			return fmt.Errorf("vacuous: mode %s has no state", m)
+		}
 	}
 
-	off := uint64(cfg.Off)
-	un := func(v any) any { // undo the offset in a decoded JSON value
-		var rec func(v any) any
-		rec = func(v any) any {
-			switch x := v.(type) {
-			case float64:
-				if off != 0 && uint64(x) >= off {
-					return x - float64(off)
-				}
-				return x
-			case []any:
-				o := make([]any, len(x))
-				for i := range x {
-					o[i] = rec(x[i])
-				}
-				return o
-			case map[string]any:
-				o := map[string]any{}
-				for k, e := range x {
-					o[k] = rec(e)
-				}
-				return o
-			}
-			return v
-		}
-		return rec(v)
-	}
-	checkNode := func(node int, got map[string]any) string {
-		gm, _ := un(got).(map[string]any)
-		if d := diffFields(nodes[node].Exp, gm, "prefix", "ranges", "holes", "ack", "nack"); d != "" {
-			return d
-		}
-		if inv, _ := got["inv"].([]any); len(inv) != 0 {
-			return "checkInvariantsCommon: " + compact(inv)
-		}
-		return ""
-	}
-	rnd := rand.New(rand.NewSource(c.Seed))
-	pairs := func(ops []op) [][2]int {
-		out := make([][2]int, len(ops))
-		for i, o := range ops {
-			out[i] = [2]int{o.A[0], o.A[1]}
-		}
-		return out
-	}
-	// initial comb states are built from their ranges in a seeded random order:
-	// the representation is a function of the set (invariant Canonical)
-	initOf := map[int][][2]int{}
-	root := make([]int, len(g.Labels)) // initial node each node's shortest path starts from
-	r := &replayer{c: c, drv: drv, g: g, workers: 4}
-	r.mkReq = func(src int, path, edges []op) any {
-		return map[string]any{"obj": "acks", "off": cfg.Off, "init": initOf[root[src]], "path": pairs(path), "edges": pairs(edges)}
-	}
-	r.checkInit = checkNode
-	r.check = func(e int, got map[string]any) string { return checkNode(g.Edges[e].To, got) }
-	// roots: follow shortest paths backwards
-	paths, _ := g.ShortestPaths()
-	for i := range g.Labels {
-		if len(paths[i]) == 0 {
-			root[i] = i
-		} else {
-			root[i] = g.Edges[paths[i][0]].From
-		}
-	}
-	for _, n := range g.Init {
-		rs := append([][2]int{}, nodes[n].Ranges...)
-		rnd.Shuffle(len(rs), func(i, j int) { rs[i], rs[j] = rs[j], rs[i] })
-		initOf[n] = rs
-	}
-	t0 := time.Now()
-	if err := r.run(); err != nil {
+	ops, err := replayAckGraph(c, drv, g, nodes, 0, "all modes")
+	if err != nil {
 		return err
 	}
 	for i, e := range g.Edges {
 		a, b := nodes[e.From], nodes[e.To]
-		o := r.ops[i]
+		o := ops[i]
 		switch {
 		case e.From == e.To || a.Key == b.Key:
 			classes["no-change"]++
@@ -265,20 +173,144 @@ func replayAcks(c *core.Ctx, drv string, cfg acksCfg, classes map[string]int) er
 			classes["nack-below-cut"]++
 		}
 	}
+
+	// the part of the dense graph that never touches 0, shifted to just below 2^32
+	// (2^32-2 is the largest number: to+1 never wraps)
+	sub := &core.Graph{}
+	idx := map[int]int{}
+	var subNodes []ackNode
+	maxPoint := 0
+	add := func(n int) int {
+		if j, ok := idx[n]; ok {
+			return j
+		}
+		idx[n] = len(sub.Labels)
+		sub.Labels = append(sub.Labels, g.Labels[n])
+		subNodes = append(subNodes, nodes[n])
+		return idx[n]
+	}
+	var queue []int
+	for _, n := range g.Init {
+		if nodes[n].Mode == "dense" {
+			sub.Init = append(sub.Init, add(n))
+			queue = append(queue, n)
+		}
+	}
+	out := make([][]int, len(g.Labels))
+	for i, e := range g.Edges {
+		out[e.From] = append(out[e.From], i)
+	}
+	for len(queue) > 0 {
+		u := queue[0]
+		queue = queue[1:]
+		for _, ei := range out[u] {
+			if ops[ei].A[0] < 1 {
+				continue
+			}
+			v := g.Edges[ei].To
+			if _, seen := idx[v]; !seen {
+				queue = append(queue, v)
+			}
+			sub.Edges = append(sub.Edges, core.Edge{From: add(u), To: add(v), Action: g.Edges[ei].Action})
+			maxPoint = max(maxPoint, ops[ei].A[1])
+		}
+	}
+	if len(sub.Edges) == 0 {
+		return fmt.Errorf("vacuous: no zero-avoiding part of the dense graph")
+	}
+	off := ^uint32(0) - 1 - uint32(maxPoint)
+	if _, err := replayAckGraph(c, drv, sub, subNodes, off, fmt.Sprintf("dense shifted by %d", off)); err != nil {
+		return err
+	}
+	c.Add("acks_edges_replayed_near_2^32", len(sub.Edges))
+	return nil
+}
+
+// replayAckGraph replays every edge of g (numbers shifted by off) and reports mismatches.
+func replayAckGraph(c *core.Ctx, drv string, g *core.Graph, nodes []ackNode, offset uint32, name string) ([]op, error) {
+	off := uint64(offset)
+	var un func(v any) any // undo the offset in a decoded JSON value
+	un = func(v any) any {
+		switch x := v.(type) {
+		case float64:
+			if off != 0 && uint64(x) >= off {
+				return x - float64(off)
+			}
+			return x
+		case []any:
+			o := make([]any, len(x))
+			for i := range x {
+				o[i] = un(x[i])
+			}
+			return o
+		case map[string]any:
+			o := map[string]any{}
+			for k, e := range x {
+				o[k] = un(e)
+			}
+			return o
+		}
+		return v
+	}
+	checkNode := func(node int, got map[string]any) string {
+		gm, _ := un(got).(map[string]any)
+		if d := diffFields(nodes[node].Exp, gm, "prefix", "ranges", "holes", "ack", "nack"); d != "" {
+			return d
+		}
+		if inv, _ := got["inv"].([]any); len(inv) != 0 {
+			return "checkInvariantsCommon: " + compact(inv)
+		}
+		return ""
+	}
+	rnd := rand.New(rand.NewSource(c.Seed))
+	pairs := func(ops []op) [][2]int {
+		out := make([][2]int, len(ops))
+		for i, o := range ops {
+			out[i] = [2]int{o.A[0], o.A[1]}
+		}
+		return out
+	}
+	// initial comb states are built from their ranges in a seeded random order:
+	// the representation is a function of the set (invariant Canonical)
+	initOf := map[int][][2]int{}
+	root := make([]int, len(g.Labels)) // initial node each node's shortest path starts from
+	r := &replayer{c: c, drv: drv, g: g, workers: 4}
+	r.mkReq = func(src int, path, edges []op) any {
+		return map[string]any{"obj": "acks", "off": offset, "init": initOf[root[src]], "path": pairs(path), "edges": pairs(edges)}
+	}
+	r.checkInit = checkNode
+	r.check = func(e int, got map[string]any) string { return checkNode(g.Edges[e].To, got) }
+	paths, _ := g.ShortestPaths()
+	for i := range g.Labels {
+		if len(paths[i]) == 0 {
+			root[i] = i
+		} else {
+			root[i] = g.Edges[paths[i][0]].From
+		}
+	}
+	for _, n := range g.Init {
+		rs := append([][2]int{}, nodes[n].Ranges...)
+		rnd.Shuffle(len(rs), func(i, j int) { rs[i], rs[j] = rs[j], rs[i] })
+		initOf[n] = rs
+	}
+	t0 := time.Now()
+	if err := r.run(); err != nil {
+		return nil, err
+	}
 	c.Add("evaluations", r.replayed)
 	c.Add("acks_edges_replayed", r.replayed)
 	c.Add("acks_real_calls", r.opsRun)
-	c.Logf("replayed %d AddAckRange edges of %s (%d real calls) in %v, %d mismatches", r.replayed, cfg.Name, r.opsRun, time.Since(t0).Round(time.Millisecond), len(r.mismatches))
+	c.Logf("replayed %d AddAckRange edges (%s; %d real calls) in %v, %d mismatches", r.replayed, name, r.opsRun, time.Since(t0).Round(time.Millisecond), len(r.mismatches))
 	if r.replayed != len(g.Edges) {
-		return fmt.Errorf("replayed %d of %d edges", r.replayed, len(g.Edges))
+		return nil, fmt.Errorf("replayed %d of %d edges", r.replayed, len(g.Edges))
 	}
 	if len(g.Edges) > 0 {
 		i := len(g.Edges) / 2
-		c.Sample(map[string]any{"config": cfg.Name, "offset": cfg.Off, "init_ranges": len(initOf[root[g.Edges[i].From]]), "path": opsString(r.pathOps(g.Edges[i].From)),
+		c.Sample(map[string]any{"graph": name, "mode": nodes[g.Edges[i].From].Mode, "offset": offset, "init_ranges": len(initOf[root[g.Edges[i].From]]), "path": opsString(r.pathOps(g.Edges[i].From)),
 			"call": r.ops[i].String(), "model_target": map[string]any{"prefix": nodes[g.Edges[i].To].Prefix, "ranges": nodes[g.Edges[i].To].Ranges}, "real": "equal (representation, BuildAck, BuildNegativeAck)"})
 	}
 	if len(r.mismatches) == 0 {
-		return nil
+		return r.ops, nil
 	}
 	c.Add("acks_edges_mismatching", len(r.mismatches))
 	reported := 0
@@ -288,7 +320,7 @@ func replayAcks(c *core.Ctx, drv string, cfg acksCfg, classes map[string]int) er
 		}
 		got, err := confirm(drv, m.Req)
 		if err != nil {
-			return err
+			return nil, err
 		}
 		node := m.Src
 		if m.Edge >= 0 {
@@ -296,19 +328,31 @@ func replayAcks(c *core.Ctx, drv string, cfg acksCfg, classes map[string]int) er
 		}
 		bad := checkNode(node, got)
 		if bad == "" {
-			return fmt.Errorf("acks mismatch after %s %s did not reproduce in a fresh process (%s)", opsString(m.Path), m.Op, m.What)
+			return nil, fmt.Errorf("acks mismatch after %s %s did not reproduce in a fresh process (%s)", opsString(m.Path), m.Op, m.What)
 		}
 		field := strings.SplitN(bad, ":", 2)[0]
 		src := nodes[m.Src]
-		key := fmt.Sprintf("acks/%s/%s/%s on prefix=%d ranges=%s", cfg.Name, field, m.Op, src.Prefix, compact(src.Ranges))
+		shift := ""
+		if offset != 0 {
+			shift = "+2^32-" + strconv.FormatUint(uint64(^uint32(0))-uint64(offset)+1, 10)
+		}
+		key := fmt.Sprintf("acks/%s%s/%s/%s on prefix=%d ranges=%s", src.Mode, shift, field, m.Op, src.Prefix, compact(src.Ranges))
 		if len(key) > 160 {
 			key = key[:160]
 		}
-		c.Violate(key, fmt.Sprintf("real AcksToSend differs from UdpAcks.tla (config %s, offset %d) after init %v, [%s] then %s: %s",
-			cfg.Name, cfg.Off, m.Req.(map[string]any)["init"], opsString(m.Path), m.Op, bad), m.Req)
+		c.Violate(key, fmt.Sprintf("real AcksToSend differs from UdpAcks.tla (mode %s, offset %d) after init %v, [%s] then %s: %s",
+			src.Mode, offset, m.Req.(map[string]any)["init"], opsString(m.Path), m.Op, bad), m.Req)
 		reported++
 	}
-	return nil
+	return r.ops, nil
+}
+
+func rangeInts(a, b int) []int {
+	var r []int
+	for i := a; i <= b; i++ {
+		r = append(r, i)
+	}
+	return r
 }
 
 func traceC37(c *core.Ctx, drv string) error {
@@ -440,7 +484,7 @@ func traceC37(c *core.Ctx, drv string) error {
 			return false
 		}},
 	}
-	for i := 0; i < c.Pick(2, 3); i++ {
+	for i := 0; i < c.Pick(1, 3); i++ {
 		co := corruptions[(int(c.Seed)+i)%len(corruptions)]
 		bad, at := corruptLine(lines, 0, co.f)
 		if bad == nil {
